@@ -102,7 +102,7 @@ class Tracer:
 
         orig_exec_job = s._exec_job
 
-        def _exec_job(job, eval_args):
+        def _exec_job(job, eval_args, *more, **kw):     # extra parameters of a changed signature are passed through
             if job.id not in T.jobid:
                 mid = len(T.jobobj)
                 T.jobid[job.id] = mid
@@ -111,27 +111,27 @@ class Tracer:
                 T.first_args[mid] = eval_args   # (args, kwargs) as first evaluated (jobs are cleared later)
                 T.emit(["ONew", mid])        # parameters filled in after the run
             T.labels.append(("exec", T.jobid[job.id]))
-            return orig_exec_job(job, eval_args)
+            return orig_exec_job(job, eval_args, *more, **kw)
         s._exec_job = _exec_job
 
         orig_done = s.done_job
 
-        def done_job(job, result, job_tags=[]):
+        def done_job(job, result, *more, **kw):
             mid = T.jobid[job.id]
             if T.status.get(job.id) == 4:
                 T.status[job.id] = None      # collapsed twin got its result: Done event queued
             if T.from_executor:
                 T.emit(["OComplete", mid, True, 0])
             T.labels.append(("done", mid))
-            return orig_done(job, result, job_tags=job_tags)
+            return orig_done(job, result, *more, **kw)
         s.done_job = done_job
 
         orig_reject = s.reject_job
 
-        def reject_job(job, error, error_traceback=None, job_tags=[]):
+        def reject_job(job, error, *more, **kw):
             if job is None:
                 T.unmodelled += 1
-                return orig_reject(job, error, error_traceback=error_traceback, job_tags=job_tags)
+                return orig_reject(job, error, *more, **kw)
             mid = T.jobid[job.id]
             e = T.vals(("err", type(error).__name__, str(error)))
             if T.from_executor:
@@ -141,17 +141,17 @@ class Tracer:
             else:
                 T.emit(["OEval", mid, ("Ko", e)])
             T.labels.append(("reject", mid))
-            return orig_reject(job, error, error_traceback=error_traceback, job_tags=job_tags)
+            return orig_reject(job, error, *more, **kw)
         s.reject_job = reject_job
 
         orig_resolve = s._resolve_job
 
-        def _resolve_job(job, result):
+        def _resolve_job(job, result, *more, **kw):
             mid = T.jobid[job.id]
             if mid not in T.preset:
                 T.emit(["OEval", mid, ("Ok", T.vals(("val", repr(result))))])
             T.labels.append(("resolve", mid))
-            return orig_resolve(job, result)
+            return orig_resolve(job, result, *more, **kw)
         s._resolve_job = _resolve_job
 
         def wrap_handler(name, kind):
@@ -190,6 +190,9 @@ class Tracer:
                     elif ct == CacheResult.CSE:
                         if not isinstance(res, ErrorValue):
                             T.preset.add(mid)
+                            # the backend's answer, for the states in which the model leaves the same-execution
+                            # look-up to the backend (context-free call whose twin was recorded under a context)
+                            T.trace[opi][0][3] = ("CHitFinal", T.vals(("val", repr(res))))
                 if kind == "resolve":
                     T.status[job.id] = 1
                 if kind == "reject":
